@@ -73,6 +73,19 @@ def preimage(x, kind, arg):
             raise Refused("no statistic to rename")
         z = x.derive(pool=1 - x.pool)
         return z, ["StatXf", {"xf": "rename"}]
+    if kind == "perm":
+        m = len(x.stats)
+        if m < 2:
+            raise Refused("needs two statistics")
+        which = "rot" if arg % 2 == 0 else "swap"
+        if which == "rot":
+            # StatPerm(rot)(z) has stats z[1:], z[0]; so z = x rotated the other way
+            z_stats = (x.stats[-1],) + x.stats[:-1]
+        else:
+            z_stats = (x.stats[1], x.stats[0]) + x.stats[2:]
+        if z_stats == x.stats:
+            raise Refused("permutation is trivial")
+        return x.derive(stats=z_stats), ["StatPerm", {"kind": which, "two_way": True}]
     if kind == "dup-stat":
         if not x.stats or len(x.stats) >= 3:
             raise Refused("no statistic to duplicate")
@@ -241,7 +254,7 @@ def path_steps(draw):
             else:
                 steps.append(["fwd", draw(gen.unary_desc())])
         else:
-            steps.append(["bwd", draw(st.sampled_from(["pattern", "zero-stat", "zero-stat-front", "rename", "rename", "dup-stat", "swap", "letter"])), draw(st.integers(0, 7))])
+            steps.append(["bwd", draw(st.sampled_from(["pattern", "zero-stat", "zero-stat-front", "rename", "rename", "dup-stat", "swap", "letter", "perm", "perm"])), draw(st.integers(0, 7))])
     return steps
 
 
@@ -260,7 +273,7 @@ def _avoiding_prefix(draw, alphabet, pats, length):
 @st.composite
 def applicable_case(draw, tier="quick"):
     """(class, strategy) drawn together so that the strategy applies."""
-    kind = draw(st.sampled_from(["Expand", "Expand", "Peel", "Peel", "Peel", "SplitAtom", "Reduce", "StatXf", "LetterSwap"]))
+    kind = draw(st.sampled_from(["Expand", "Expand", "Peel", "Peel", "Peel", "SplitAtom", "Reduce", "StatXf", "StatPerm", "LetterSwap"]))
     k = draw(st.sampled_from([1, 2, 2, 2, 3])) if kind != "LetterSwap" else draw(st.sampled_from([2, 2, 3]))
     alphabet = "abc"[:k]
     npat = draw(st.sampled_from([0, 1, 1, 2, 2, 3]))
@@ -303,6 +316,12 @@ def applicable_case(draw, tier="quick"):
         prefix = _avoiding_prefix(draw, alphabet, pats, draw(st.integers(0, 3)))
         strict = int(draw(st.integers(0, 4)) == 0)
         sdesc = ["StatXf", {"xf": xf}]
+    elif kind == "StatPerm":
+        pool_letters = ["a", "b", "ab", "z", "c", "", "bz"]
+        stats = draw(st.lists(st.sampled_from(pool_letters), min_size=2, max_size=3, unique=True))
+        prefix = _avoiding_prefix(draw, alphabet, pats, draw(st.integers(0, 3)))
+        strict = int(draw(st.integers(0, 4)) == 0)
+        sdesc = ["StatPerm", {"kind": draw(st.sampled_from(["rot", "swap"])), "two_way": True}]
     else:
         prefix = _avoiding_prefix(draw, alphabet, pats, draw(st.integers(0, 3)))
         sdesc = ["LetterSwap", {"shift": draw(st.integers(1, k - 1))}]
